@@ -398,6 +398,19 @@ class SizedReversibleOneShot(SizedOneShot):
         return self
 
 
+class CursorOneShot(SizedOneShot):
+    """A one-shot iterator that is structurally a ``Collection`` as well (``__len__`` = rows left, ``__contains__``), like a
+    database cursor or a "remaining rows" reader: ``iter(x) is x``, so taking its first item removes it for good."""
+
+    def __contains__(self, v):
+        self.log['__contains__'] += 1
+        return False
+
+    def __repr__(self):
+        self.log['__repr__'] += 1
+        return 'CursorOneShot()'
+
+
 def item_fetches(log):
     """Number of items a check pulled out of a container, by any protocol route."""
     n = 0
